@@ -8,7 +8,9 @@ pub mod casts;
 pub mod interop;
 pub mod io;
 pub mod lifts;
+#[macro_use]
 pub mod provided;
+pub mod recorder;
 
 use io::*;
 use vek::mat::repr_c::column_major as cm;
@@ -111,6 +113,7 @@ pub fn property() -> Property {
     index!("trait-methods-usize", provided::ABOUT_INT, provided::TOTAL, ALL, ALL, provided::int_all::<usize>);
     index!("trait-methods-f32", provided::ABOUT_FLOAT, provided::TOTAL, ALL, ALL, provided::float_all::<f32>);
     index!("trait-methods-f64", provided::ABOUT_FLOAT, provided::TOTAL, ALL, ALL, provided::float_all::<f64>);
+    index!("trait-methods-recording-element", recorder::ABOUT_REC, provided::TOTAL, ALL, ALL, recorder::rec_all);
     index!("trait-methods-mat-more-ints", "six matrix types, the element types i16 i64 i128 isize u16 u32 u128 usize (zero-one-mat-* run i32 u8 f32 f64): Zero::{zero, set_zero, is_zero} and One::{one, set_one, is_one} through the trait — zero() all elements 0, one() the identity, set_zero / set_one on receivers that are neither, is_zero / is_one iff every element is the zero's / the identity's (every (i,j) x special values); vek lifts no other num-traits trait to matrices and none to quaternions", provided::MAT_MORE_TOTAL, ALL, ALL, provided::zo_mats_more);
 
     // ---- casts
@@ -148,7 +151,7 @@ pub fn property() -> Property {
 
     Property {
         id: "C20",
-        rule: "index checks enumerate a finite space (vector type, lane / element position, background, operand or pair kind) completely in both tiers except the *-all sweeps of Vec32/Vec64 (quick: seeded sample; thorough: complete); tape checks decode proptest byte tapes (vector type, scalar pair, hot positions, boundary values). Non-trivial: lifted ops — across the y sweep the varied lane both fails (None / flag / panic) and succeeds while the other lanes are fixed (sampled: some lane fails); casts — some lane fails the checked / NumCast conversion while the others do not; approx — the varied position makes the predicate false for some tolerance while all other positions are identical (mixed: at least one position differs; same-object / bitwise-copy forms: some predicate is false on (v, v), i.e. an identity early-out would show); aliased lifts — as the lifted sweeps, with both operands the same object; integer abs_diff — some epsilon decides false; float Euclid — every case; zero/one — a single special element on a uniform background; trait-methods-* — across the edge-pair sweep the varied lane both offends (None / flag / panic / not zero) and does not, and the combined checked method returns None (and, on a benign background, Some) (floats: the combined method ran and some predicate was false)",
+        rule: "index checks enumerate a finite space (vector type, lane / element position, background, operand or pair kind) completely in both tiers except the *-all sweeps of Vec32/Vec64 (quick: seeded sample; thorough: complete); tape checks decode proptest byte tapes (vector type, scalar pair, hot positions, boundary values). Non-trivial: lifted ops — across the y sweep the varied lane both fails (None / flag / panic) and succeeds while the other lanes are fixed (sampled: some lane fails); casts — some lane fails the checked / NumCast conversion while the others do not; approx — the varied position makes the predicate false for some tolerance while all other positions are identical (mixed: at least one position differs; same-object / bitwise-copy forms: some predicate is false on (v, v), i.e. an identity early-out would show); aliased lifts — as the lifted sweeps, with both operands the same object; integer abs_diff — some epsilon decides false; float Euclid — every case; zero/one — a single special element on a uniform background; trait-methods-* — across the edge-pair sweep the varied lane both offends (None / flag / panic / not zero) and does not, and the combined checked method returns None (and, on a benign background, Some) (floats: the combined method ran and some predicate was false; recording element: every case — the terms of a.m(&b), b.m(&a) and a.m2(&b) differ by construction)",
         assumptions: &[
             "rustc and the proptest runner/shrinker are trusted",
             "the scalar rule is the scalar's own impl of the same trait (num-traits Checked*/Wrapping*/Saturating*/Overflowing*/Euclid/Inv/NumCast, az casts, approx impls for f32/f64); for as_ it is the `as` operator",
@@ -160,6 +163,7 @@ pub fn property() -> Property {
             "integer AbsDiffEq: approx's signed impl computes abs(x - y), which overflows (panics in this profile) for far-apart values; lane evaluation order and short-circuiting are unspecified, so pairs whose difference or its absolute value overflows are not generated",
             "float results are compared bit for bit except that any NaN equals any NaN",
             "trait-methods-*: the scalar rule for a PROVIDED trait method (set_zero, set_one, is_one, div_rem_euclid, checked_div_rem_euclid) is that same method on the primitive, i.e. num-traits' default body; MulAdd on vectors belongs to C02 and is not judged here; num-traits' shift traits (CheckedShl/Shr, WrappingShl/Shr), Bounded, Signed, Num, Pow, MulAddAssign and Inv for references are not implemented for any vek type, so there is nothing to call",
+            "trait-methods-recording-element: vek's lifts are generic over the element, so a user-defined element whose methods record (method, receiver, argument) is a legitimate instance; 'per element what the scalar operation returns' is read as: the element's own method of the same name, receiver from the left vector, argument from the right, lane i with lane i; 64-bit term hashes are assumed collision-free",
             "only the behaviour half of C20 is decided here; the feature-configuration build matrix is a separate tool",
         ],
         checks,
